@@ -178,6 +178,20 @@ Proof.
     vm_compute in F; try discriminate F; vm_compute; reflexivity.
 Qed.
 
+(* inside a quote pair inside [ ], where the OTHER quote character opens
+   ([open] = false) and closes ([open] = true) a nested pair *)
+Definition nstk (q : quote) (open : bool) : list ascii :=
+  if open then [qchar (other_quote q); qchar q; "["%char] else [qchar q; "["%char].
+
+Lemma plain_bnest strip sepc d q open segs0 ty sinv0 smeth0 sattr0 acc c :
+  mem_ascii c (nest_specials q) = false -> Ascii.eqb c (qchar (other_quote q)) = false ->
+  step strip sepc (GstD d false segs0 ty (nstk q open) sinv0 smeth0 sattr0 None 0 CNone acc false false) c
+  = Ok (GstD d false segs0 ty (nstk q open) sinv0 smeth0 sattr0 None 0 CNone (snoc acc c) false false).
+Proof.
+  intros H F. destruct d, q, open; all_ascii c; vm_compute in H; try discriminate H;
+    vm_compute in F; try discriminate F; vm_compute; reflexivity.
+Qed.
+
 (* keyword parameters: inside ( inside [ *)
 Lemma plain_params strip sepc segs0 sinv0 sattr0 k acc sa sc c :
   mem_ascii c param_specials = false -> first_ok sa sc c = true ->
